@@ -99,6 +99,7 @@ static mvsim_rng g_rng_sched, g_rng_rand, g_rng_clock, g_rng_poison;
 static uint64_t g_clock_ns, g_clock_last_read_step, g_clock_last_value, g_clock_start_ns;
 static mvsim_probe_cb_t g_probe_cb;
 static int g_rr_left;
+static uint64_t g_func_steps;
 static uint64_t g_pct_points[8];
 static long g_pct_low;
 static unsigned char g_pairmap[160 * 160 / 8 + 1];
@@ -364,7 +365,7 @@ void mvsim_begin_run(const mvsim_runcfg *c) {
   memset(&g_st, 0, sizeof g_st);
   memset(g_pairmap, 0, sizeof g_pairmap);
   for (int i = 0; i < NSLOTS; i++) { g_w[i].state = W_UNUSED; g_w[i].id = i; }
-  g_progress = 1; g_sweeps = 0; g_progress_at_sweep = 0; g_drain = 0; g_nspawned = 0; g_ndone = 0;
+  g_func_steps = 0; g_progress = 1; g_sweeps = 0; g_progress_at_sweep = 0; g_drain = 0; g_nspawned = 0; g_ndone = 0;
   g_rr_left = 0;
   mvsim_rng_seed(&g_rng_sched, c->run_seed, 1);
   mvsim_rng_seed(&g_rng_rand, c->run_seed, 2);
@@ -596,8 +597,12 @@ worker *mvsim_dispatch(struct mvreq *r) {
   if (r->kind != RQ_FUNC) { w->last_kind = r->kind; w->last_site = r->site; }
   ring_add(w->id, r->kind, r->site, r->p);
   sig_mix(((uint64_t)w->id << 16) ^ (uint64_t)r->site ^ ((uint64_t)r->kind << 8));
-  if (!g_drain && g_st.steps > g_cfg.budget1) { g_drain = 1; g_rr_left = 0; }
-  if (g_st.steps > g_cfg.budget1 + g_cfg.budget2) hang("step budget exhausted under fair scheduling");
+  /* budgets are counted in real schedule points; function-granularity points (flavour fn) weigh a quarter,
+     so that the same program has about the same budget in every build flavour */
+  if (r->kind == RQ_FUNC) g_func_steps++;
+  uint64_t bsteps = g_st.steps - g_func_steps + g_func_steps / 4;
+  if (!g_drain && bsteps > g_cfg.budget1) { g_drain = 1; g_rr_left = 0; }
+  if (bsteps > g_cfg.budget1 + g_cfg.budget2) hang("step budget exhausted under fair scheduling");
   worker *nx = choose(w);
   mvsim_cur = nx;
   if (nx->req_kind != RQ_FUNC) nx->obs = g_progress;
